@@ -26,7 +26,7 @@ var (
 	c03Ports = []string{"", "", ":80", ":443", ":8080", ":9"}
 	// the last three: letters whose lower-case form has another encoded length (U+0130, KELVIN SIGN U+212A) and a plain non-ASCII one
 	c03Paths     = []string{"/", "/a", "/a/", "/a/b", "/a/b/c", "/ab", "/A/b", "/b", "/B", "/FOO/bar", "/foo", "/\u0130stanbul", "/\u212Aelvin/a", "/\u00dcber"}
-	c03IPv6Hosts = []string{"[2001:db8::1]", "[2001:db8::1]:8080", "[::1]"} // literal names: only with host globbing disabled ('[' opens a class otherwise)
+	c03IPv6Hosts = []string{"[2001:db8::1]", "[2001:db8::1]:8080", "[::1]"} // literal names ('[' opens a class for the glob matcher)
 	c03GlobPaths = []string{"/*", "/a*", "/a/*", "/a/b*", "/a/b/*", "/ab*", "/A/b*", "/b*", "/a/b/c", "/a/{", "/a{", "/{"}
 	c03ReqPaths  = []string{"/", "/a", "/a/", "/a/b", "/a/b/c", "/a/b/c/d", "/ab", "/abc", "/A/b", "/A/B", "/b", "/B/x", "/c", "/foo/bar", "/FOO/bar/x", "/Foo", "",
 		"/istanbul/map", "/\u0130STANBUL", "/kelvin/a/b", "/Kelvin/a", "/\u212Aelvin/a/x", "/\u00fcber/x", "/\u00dcBER"}
@@ -51,8 +51,8 @@ func genC03(r *rand.Rand) *c03Case {
 	seen := map[string]bool{}
 	for i := 0; i < n; i++ {
 		h := choose(r, c03HostPats)
-		if cs.NoGlob && r.Intn(6) == 0 {
-			h = choose(r, c03IPv6Hosts)
+		if r.Intn(6) == 0 && (cs.NoGlob || r.Intn(2) == 0) {
+			h = choose(r, c03IPv6Hosts) // with globbing on the brackets read as a class: the literal must still name itself
 		}
 		p := choose(r, c03Paths)
 		if cs.Matcher == "glob" {
@@ -66,7 +66,7 @@ func genC03(r *rand.Rand) *c03Case {
 	}
 	for j := 0; j < 24; j++ {
 		h := choose(r, c03ReqHosts)
-		if cs.NoGlob && r.Intn(6) == 0 {
+		if r.Intn(6) == 0 && (cs.NoGlob || r.Intn(2) == 0) {
 			h = choose(r, []string{"[2001:db8::1]", "[2001:DB8::1]", "[::1]"})
 		}
 		if h != "" {
